@@ -1172,6 +1172,7 @@ def lex_events(events):
         elif ev == "leaf_stats":
             if units:
                 units[-1]["has_stats"], units[-1]["stats"] = True, e["stats"]
+                units[-1]["alloc_text"] = e.get("alloc_text", [])
         elif ev == "args_eval":
             evals.append({"what": e["what"], "fn": e["fn"]})
     for u in units:
